@@ -112,6 +112,17 @@ class GatewayMonitor:
         elif kind == "fw":
             exp = self.model.update_fw(list(ev[1]) if isinstance(ev[1], (tuple, list)) else ev[1], ev[2], ev[3], ev[4])
             self.judge_call(world, ev, obs, exp, observed, viols, asleep_before)
+        elif kind == "topic":
+            # MQTT: a raw topic. Only topics that are NOT of the subscribed shape (prefix + five levels) are judged here.
+            pre = world.in_prefix
+            rest = ev[1][len(pre) + 1 :] if ev[1].startswith(pre + "/") else None
+            if rest is None or len(rest.split("/")) != 5:
+                if obs.exc is not None:
+                    if "exc" in self.clauses:
+                        viols.append(self.v("exception", "mqtt odd topic", f"topic {ev[1]!r} (qos {ev[3]}): {obs.exc['type']}: {obs.exc['text']} escaped from MQTTTransport.recv at {obs.exc['site']}", f"{obs.exc['type']}@{obs.exc['site']}"))
+                elif "noeffect" in self.clauses and (obs.sent or obs.pubs or obs.callbacks or (self.last_key is not None and world.key(None) != self.last_key)):
+                    viols.append(self.v("rejected-topic-has-effect", "mqtt odd topic", f"topic {ev[1]!r} (qos {ev[3]}) is not of the subscribed shape but changed the state or produced output {obs.lines()}"))
+            return viols
         elif kind in ("metric", "clock"):
             self.sync_clock(world)
         elif kind == "restart":
